@@ -311,7 +311,9 @@ def sampling(tier, rng, rep):
         k = int(rng.integers(1, m))
         shape = [(), (3,), (2, 2)][t % 3]
         A = rng.normal(size=shape + (k, m))
-        inp = {"A": A.tolist()}
+        if t % 4 == 3:       # complex matrices (subspaces of complex projective space are intersected through this routine)
+            A = A + 1j * rng.normal(size=A.shape)
+        inp = {"A_re": np.real(A).tolist(), "A_im": np.imag(A).tolist()}
         K = rep.attempt("kernel_runs", inp, lambda: utils.kernel(A.copy()))
         if K is not None:
             if K.shape != shape + (m, m - k):
@@ -319,8 +321,8 @@ def sampling(tier, rng, rep):
             else:
                 if not np.all(np.abs(A @ K) <= 1e-9):
                     rep.fail("kernel_annihilated", f"{np.max(np.abs(A @ K))}", inp)
-                if not np.all(np.abs(np.swapaxes(K, -1, -2) @ K - np.eye(m - k)) <= 1e-9):
-                    rep.fail("kernel_orthonormal", "K^T K != I", inp)
+                if not np.all(np.abs(np.conjugate(np.swapaxes(K, -1, -2)) @ K - np.eye(m - k)) <= 1e-9):
+                    rep.fail("kernel_orthonormal", "K^H K != I", inp)
             rep.case(key=("ker", t))
         # rank-deficient matrices (wide, square and tall): the kernel has dimension m - rank
         kk, rr = int(rng.integers(2, m + 2)), int(rng.integers(1, min(m, 4)))
